@@ -64,9 +64,10 @@ type FuncV struct {
 type MapV struct{ m *MapObj }
 
 type MapObj struct {
-	keys  []Value
-	vals  []Value
-	epoch int32
+	keys    []Value
+	vals    []Value
+	epoch   int32
+	snapGen int32 // path generation in which the pre-path content was saved (epoch-0 maps)
 }
 
 type TupleV []Value
@@ -90,10 +91,12 @@ const (
 
 // Cell is a unit of addressable memory.
 type Cell struct {
-	v     Value
-	kids  []*Cell
-	kind  uint8
-	epoch int32
+	v       Value
+	kids    []*Cell
+	kind    uint8
+	lsFlags uint8 // lockset monitor (syncmodel.go), valid when lsGen is the current path generation
+	epoch   int32
+	lsGen   int32
 }
 
 // ---------------------------------------------------------------- type helpers
